@@ -25,6 +25,9 @@ pub const MS_MUL: usize = 3;
 pub const MS_ADD: usize = 7;
 pub const MS_CTX: u32 = 9;
 pub const CTX2_ADD: u32 = 1000;
+/// context of the end-of-input span handed to `Input::map` / `IterInput::new`, and of token i (TOK_CTX0 + i % 3)
+pub const EOI_CTX: u32 = 5;
+pub const TOK_CTX0: u32 = 11;
 
 #[derive(Clone, Copy, Debug, PartialEq, Eq, PartialOrd, Ord, Hash, Serialize, Deserialize)]
 pub enum Kind {
@@ -172,7 +175,9 @@ pub fn run_kind(g: &G, syms: &[u8], kind: Kind, mode: PMode, env: &Env, budget: 
     let ms = |s: SS| -> CS { SimpleSpan { start: s.start * MS_MUL + MS_ADD, end: s.end * MS_MUL + MS_ADD, context: MS_CTX } };
     // second layer: re-maps an already contextualised span
     let ms2 = |s: CS| -> CS { SimpleSpan { start: s.start * MS_MUL + MS_ADD, end: s.end * MS_MUL + MS_ADD, context: s.context + CTX2_ADD } };
-    let eoi: SS = (env.eoi.0..env.eoi.1).into();
+    // mapped kinds: every token carries its own span WITH its own context (as tokens that come from
+    // several files / macro expansions do); spans of the input recombine the end-of-input span's context
+    let eoi: CS = SimpleSpan { start: env.eoi.0, end: env.eoi.1, context: EOI_CTX };
 
     macro_rules! value {
         ($I:ty, $mk:expr) => {{
@@ -195,7 +200,7 @@ pub fn run_kind(g: &G, syms: &[u8], kind: Kind, mode: PMode, env: &Env, budget: 
     let outcome = if !kind.is_char() {
         let toks: Vec<u8> = syms.iter().map(|s| u8::from_sym(*s)).collect();
         let rc = Rc::new(toks.clone());
-        let pairs: Vec<(u8, SS)> = toks.iter().zip(env.mspans.iter()).map(|(t, (a, b))| (*t, (*a..*b).into())).collect();
+        let pairs: Vec<(u8, CS)> = toks.iter().zip(env.mspans.iter()).enumerate().map(|(i, (t, (a, b)))| (*t, SimpleSpan { start: *a, end: *b, context: TOK_CTX0 + (i % 3) as u32 })).collect();
         match kind {
             Kind::Slice => value!(&[u8], &toks[..]),
             Kind::Array => {
@@ -234,23 +239,23 @@ pub fn run_kind(g: &G, syms: &[u8], kind: Kind, mode: PMode, env: &Env, budget: 
             }
             Kind::Bytes => value!(bytes::Bytes, bytes::Bytes::from(toks.clone())),
             Kind::MappedSlice => {
-                fn f<'x>(ts: &'x (u8, SS)) -> (&'x u8, &'x SS) {
+                fn f<'x>(ts: &'x (u8, CS)) -> (&'x u8, &'x CS) {
                     (&ts.0, &ts.1)
                 }
-                value!(chumsky::input::MappedInput<u8, SS, &[(u8, SS)], _>, (&pairs[..]).map(eoi, f))
+                value!(chumsky::input::MappedInput<u8, CS, &[(u8, CS)], _>, (&pairs[..]).map(eoi, f))
             }
             Kind::MappedStream => {
                 let (it, log) = SimIter::new(Rc::new(pairs.clone()), env.hint);
                 ilog = Some(log);
-                let f = |ts: (u8, SS)| (ts.0, ts.1);
-                value!(chumsky::input::MappedInput<u8, SS, Stream<SimIter<(u8, SS)>>, _>, Stream::from_iter(it).map(eoi, f))
+                let f = |ts: (u8, CS)| (ts.0, ts.1);
+                value!(chumsky::input::MappedInput<u8, CS, Stream<SimIter<(u8, CS)>>, _>, Stream::from_iter(it).map(eoi, f))
             }
             Kind::IterInput => {
                 let (it, log) = SimCloneIter::new(Rc::new(pairs.clone()));
                 ilog = Some(log);
-                let r = catch_unwind(AssertUnwindSafe(|| build_input_only::<IterInput<SimCloneIter<(u8, SS)>, SS>>(g)));
+                let r = catch_unwind(AssertUnwindSafe(|| build_input_only::<IterInput<SimCloneIter<(u8, CS)>, CS>>(g)));
                 match r {
-                    Ok(p) => exec::<IterInput<SimCloneIter<(u8, SS)>, SS>, _, _>(&p, || IterInput::new(it, eoi), mode, 0),
+                    Ok(p) => exec::<IterInput<SimCloneIter<(u8, CS)>, CS>, _, _>(&p, || IterInput::new(it, eoi), mode, 0),
                     Err(_) => Outcome::Panicked { msg: hook::take_panic() },
                 }
             }
@@ -290,8 +295,8 @@ pub fn run_kind(g: &G, syms: &[u8], kind: Kind, mode: PMode, env: &Env, budget: 
             Kind::CtxOfMappedStream => {
                 let (it, log) = SimIter::new(Rc::new(pairs.clone()), env.hint);
                 ilog = Some(log);
-                let f = |ts: (u8, SS)| (ts.0, ts.1);
-                value!(chumsky::input::WithContext<CS, chumsky::input::MappedInput<u8, SS, Stream<SimIter<(u8, SS)>>, _>>, Stream::from_iter(it).map(eoi, f).with_context::<CS>(CTX))
+                let f = |ts: (u8, CS)| (ts.0, ts.1);
+                value!(chumsky::input::WithContext<CS, chumsky::input::MappedInput<u8, CS, Stream<SimIter<(u8, CS)>>, _>>, Stream::from_iter(it).map(eoi, f).with_context::<CS>(CTX))
             }
             _ => unreachable!(),
         }
@@ -376,7 +381,7 @@ pub fn rebase(ref_kind: Kind, kind: Kind, syms: &[u8], env: &Env) -> Box<dyn Fn(
             let m = env.mspans.clone();
             Box::new(move |s: Sp| {
                 if s.1 < s.2 && s.2 <= m.len() {
-                    Sp(0, m[s.1].0, m[s.2 - 1].1)
+                    Sp(EOI_CTX, m[s.1].0, m[s.2 - 1].1)
                 } else {
                     // empty ranges: compared among the mapped kinds only (DESIGN §3)
                     Sp::MASKED
@@ -506,7 +511,10 @@ fn long_case(rng: &mut Rng, n: usize) -> (G, Vec<u8>, u8) {
         2 => {
             // x* and_is (x* end-ish)  + trailing token
             body.push(3);
-            G::Then(Box::new(G::AndIs(Box::new(rep(item(rng), RepMode::Count)), Box::new(rep(G::Any, RepMode::Unit)))), Box::new(G::Just(3)))
+            // (the second parser either walks to the end as well, or looks at a single token: then the
+            // position jumps FORWARD from 1 to where x* stopped)
+            let second = if rng.chance(1, 2) { rep(G::Any, RepMode::Unit) } else { G::Or(Box::new(item(rng)), Box::new(G::Just(3))) };
+            G::Then(Box::new(G::AndIs(Box::new(rep(item(rng), RepMode::Count)), Box::new(second))), Box::new(G::Just(3)))
         }
         3 => {
             // choice of three: two fail at the very end
@@ -597,6 +605,18 @@ fn long_case(rng: &mut Rng, n: usize) -> (G, Vec<u8>, u8) {
             let list = |it: G| G::Sep { item: Box::new(it), sep: Box::new(G::Just(3)), min: 1, max: None, lead: false, trail: false, mode: RepMode::Count };
             G::Or(Box::new(G::Then(Box::new(list(item(rng))), Box::new(G::Just(4)))), Box::new(G::Then(Box::new(list(item(rng))), Box::new(G::Just(5)))))
         }
+    };
+    // the far failure in the MIDDLE of the input: more tokens follow the point where the abandoned
+    // alternative stopped, so a reader still has unread bytes buffered when it has to jump back
+    // (or, after look-ahead, forward) by more than its buffer
+    let (g, body) = if matches!(t, 0 | 2 | 3 | 6) && rng.chance(2, 3) {
+        let mut body = body;
+        for _ in 0..rng.range(1, 300) {
+            body.push(rng.below(3) as u8);
+        }
+        (G::Then(Box::new(g), Box::new(G::Rep { item: Box::new(G::Any), min: 0, max: None, mode: RepMode::Unit })), body)
+    } else {
+        (g, body)
     };
     (g, body, nsym)
 }
@@ -889,7 +909,9 @@ impl SrcSim {
                     if kind.is_mapped() {
                         // (the context a wrapper adds on top is removed for the comparison among mapped kinds)
                         let mut o = run.outcome.clone();
-                        o.map_spans(&|s: Sp| if s == Sp::MASKED { s } else { Sp(0, s.1, s.2) });
+                        if kind == Kind::CtxOfMappedStream {
+                            o.map_spans(&|s: Sp| if s.0 == CTX { Sp(EOI_CTX, s.1, s.2) } else { s });
+                        }
                         mapped_obs.push((kind, o, env.clone()));
                     }
                     acc.sample("samples", idx, 6, || {
